@@ -434,6 +434,23 @@ def run_check():
     ck.evaluations += len(reqs)
     ck.extra["neigh_tables_compared"] = dict(shapes=len(reqs), rule="all mk, mth in 1..40", differing=nbad)
 
+    # ---- (i') int_minval (decides whether another clean-up sweep runs), real C vs its specification, every list over
+    # {-1, 0, 1, 2, 7} of length 1..6 (the Lean transliteration uses the specification `all (· > 0)` directly)
+    import itertools
+
+    mv = [list(t) for n in range(1, 7) for t in itertools.product([-1, 0, 1, 2, 7], repeat=n)]
+    rc, cout, cerr = run_lines(CDRV / "cdrv", [f"minval {len(t)} " + " ".join(map(str, t)) for t in mv])
+    if rc != 0 or len(cout) != len(mv):
+        raise RuntimeError(f"cdrv minval failed rc={rc} {cerr[-300:]}")
+    nbadmv = 0
+    for t, c in zip(mv, cout):
+        if int(c) != min(t):
+            nbadmv += 1
+            if nbadmv <= 3:
+                ck.disagree("int_minval", f"int_minval({t}) = {c}, the minimum is {min(t)}", dict(data=t, c=int(c)))
+    ck.evaluations += len(mv)
+    ck.extra["int_minval_compared"] = dict(lists=len(mv), rule="all lists over {-1,0,1,2,7} of length 1..6", differing=nbadmv)
+
     # ---- corpus (witnesses of findings first)
     corpus_cases = []
     for p in sorted((ROOT / "corpus" / "C04").glob("*.json")):
